@@ -71,6 +71,7 @@ type c20Fam struct {
 	Kind    string // conf | csv
 	Early   bool   // the transaction was confirmed before startingHeight
 	Race    bool   // chain changes in the middle of the watcher's RPC sequence
+	TxIndex bool   // lnd only: the notifier finds a confirmation below the height hint (lnd on a txindex-enabled bitcoind looks the transaction up by id)
 	Depth   int
 	Window  uint32
 	Csv     uint32
@@ -102,6 +103,9 @@ func c20Families(tier string) []c20Fam {
 	add("rpc", "lbtc", 2, c20Window, c20Csv, d)
 	add("electrum", "lbtc", 2, c20Window, c20Csv, d)
 	add("lnd", "btc", 3, 504, 1008, d)
+	for _, kind := range []string{"conf", "csv"} {
+		out = append(out, c20Fam{Name: "lnd-btc/" + kind + "/early/txindex", Watcher: "lnd", Chain: "btc", Confs: 3, Kind: kind, Early: true, TxIndex: true, Depth: d, Window: 504, Csv: 1008})
+	}
 	// mid-call chain changes (RPC watcher only; see c20View.after)
 	out = append(out, c20Fam{Name: "rpc-btc/conf/race", Watcher: "rpc", Chain: "btc", Confs: 3, Kind: "conf", Race: true, Depth: d - 1, Window: c20Window, Csv: c20Csv})
 	out = append(out, c20Fam{Name: "rpc-lbtc/conf/race", Watcher: "rpc", Chain: "lbtc", Confs: 2, Kind: "conf", Race: true, Depth: d - 1, Window: c20Window, Csv: c20Csv})
@@ -341,6 +345,12 @@ func (x *c20Exec) onConf(swapID, txHex string, err error) error {
 		if !r.RawOK {
 			x.add("confirmed_with_wrong_rawtx", x.describe(r)+fmt.Sprintf(" rawtx=%q", txHex))
 			bad = true
+		}
+		if os.Getenv("VERIF_C20_C05") != "" && t.Exists && t.Height != 0 && uint32(t.depth()) >= x.W {
+			// only as a sub-check of C05 (never part of C20's own verdict): the taker starts paying on
+			// this report, and its HTLC may stay open for up to the window (= CSV/2) from now on; a
+			// transaction that is already a whole window deep leaves less than CSV/2 until the refund
+			x.add("confirmed_reported_at_depth_ge_window", x.describe(r))
 		}
 		if !bad {
 			x.flags["conf_success_true"] = true
@@ -1338,7 +1348,7 @@ func (a *c20Lnd) evaluateConfs() {
 			s.sentAt = 0
 			s.ch <- &chainrpc.ConfEvent{Event: &chainrpc.ConfEvent_Reorg{Reorg: &chainrpc.Reorg{}}}
 		}
-		if s.sentAt == 0 && tx != nil && tx.Height != 0 && tx.Height >= s.hint && tip-tx.Height+1 >= s.confs {
+		if s.sentAt == 0 && tx != nil && tx.Height != 0 && (tx.Height >= s.hint || x.f.TxIndex) && tip-tx.Height+1 >= s.confs {
 			s.sentAt = tx.Height
 			raw, _ := hex.DecodeString(tx.Hex)
 			s.ch <- &chainrpc.ConfEvent{Event: &chainrpc.ConfEvent_Conf{Conf: &chainrpc.ConfDetails{RawTx: raw, BlockHeight: tx.Height}}}
@@ -1720,7 +1730,7 @@ func TestC20(t *testing.T) {
 		"depth":         map[string]int{"quick": 6, "thorough": 8},
 	}
 	rep.Assumptions = []string{
-		"world.Chain / world.RPCView answer like bitcoind/elementsd (gettxout includes the mempool, nil for spent outputs, getrawtransaction needs the right block hash); the fake Electrum server follows the protocol's height conventions (>0 confirmed, 0 / -1 unconfirmed) and announces every new tip; the fake lnd chain notifier dispatches Conf at the requested depth from the height hint on and Reorg when a reported tx leaves its block",
+		"world.Chain / world.RPCView answer like bitcoind/elementsd (gettxout includes the mempool, nil for spent outputs, getrawtransaction needs the right block hash); the fake Electrum server follows the protocol's height conventions (>0 confirmed, 0 / -1 unconfirmed) and announces every new tip; the fake lnd chain notifier dispatches Conf at the requested depth from the height hint on (families .../txindex: also below the hint, as lnd does when its bitcoind has a transaction index) and Reorg when a reported tx leaves its block",
 		"state deduplication merges histories that agree on the canonical key; the key contains everything the watchers can still observe plus a summary of what they were told",
 	}
 	need := []string{}
